@@ -45,6 +45,7 @@ Imm(w) == [k |-> "imm", w |-> w]
 DRef == [k |-> "dref", b |-> 2]       \* address of the module's bss item gdat (memory block 2)
 DRef4 == [k |-> "dref", b |-> 4]      \* address of main's label-reference section lr_main: one 8-byte lref item per lref1/lref2 slot
 DRef5 == [k |-> "dref", b |-> 5]      \* address of the reference section rt: `ref gdat, 8` continued by an anonymous `ref g5`
+DRef7 == [k |-> "dref", b |-> 7]      \* address of the data section gq: data i64 3 ; (anonymous) ld 2.5 ; (anonymous) i64 40 -- no gaps: 0, 8, 24
 DRef3 == [k |-> "dref", b |-> 3]      \* address of the data section gd: data i32 11, -2, 2147483647 ; (anonymous) data i64 5
 Mem(ty, disp, base, idx, scale) == [k |-> "mem", ty |-> ty, disp |-> disp, base |-> base, idx |-> idx, scale |-> scale, al |-> ""]
 (* memory operand with an alias name: accesses with different non-empty alias names are promised not to overlap *)
@@ -240,7 +241,7 @@ Fmts == {"d", "f", "ld"}
 Pfx(fmt) == fmt
 
 KindsInt == {"ibin", "iun", "shift", "div", "br2", "br1", "loop", "ovf", "switch", "callg1", "callg2", "ext", "alloca", "jmpi", "idx",
-             "pld", "pst", "alloca2", "gcall", "dload", "lref1", "lref2", "addrst", "addrld", "addrcall", "bsblk", "rload", "rcall", "lref3", "ext2", "alloca3", "br1i", "divm", "pidxst", "postinc"}
+             "pld", "pst", "alloca2", "gcall", "dload", "qload", "qloadf", "lref1", "lref2", "addrst", "addrld", "addrcall", "bsblk", "rload", "rcall", "lref3", "ext2", "alloca3", "br1i", "divm", "pidxst", "postinc"}
 KindsFp == {"fbin", "fcmp", "fbr", "i2f", "f2i", "fmovm", "f2f", "callg3", "addrfp", "callva"}
 (* "link": the constructs MIR_link rewrites (calls to inline, allocas, jumps and branch chains, memory operands) *)
 KindsLink == {"callg1", "callg2", "callg3", "callg13", "ext", "alloca", "br2", "br1", "loop", "switch", "ibin", "idx", "jmpi", "ovf", "calla",
@@ -253,7 +254,7 @@ KindsOf == IF Vocab = "int" THEN KindsInt ELSE IF Vocab = "link" THEN KindsLink
          ELSE KindsInt \cup KindsFp \cup {"calla", "callg6", "callg7", "rblk", "blkv", "blkv12", "blkv20", "blkv4", "callg21", "icall21", "callg22", "callg12", "callg13", "callg14"}
 NeedFull == {"pld", "pst", "gcall", "pidxst"}
 KindsGlob == IF ~UseG THEN {} ELSE {"gset", "gget", "gadd"} \cup (IF Glob = "calls" THEN {"gcall2"} ELSE {})
-KindsAbs == IF Abs /\ Vocab \in {"all", "link", "int"} THEN {"absld", "absst", "absd"} ELSE {}
+KindsAbs == IF Abs /\ Vocab \in {"all", "link", "int", "single"} THEN {"absld", "absst", "absd"} ELSE {}
 Kinds == (IF Lean THEN KindsOf \ NeedFull ELSE KindsOf) \cup KindsAbs \cup KindsGlob
 
 (* holes of each kind, in order; a hole name selects its domain below *)
@@ -326,6 +327,8 @@ Holes(k) ==
     [] k = "pst" -> <<"imemty", "preg", "isrc">>
     [] k = "alloca2" -> <<"ireg", "isrc", "subld">>
     [] k = "dload" -> <<"ireg", "dmem">>
+    [] k = "qload" -> <<"ireg", "qmem">>
+    [] k = "qloadf" -> <<"qfmem">>
     [] k = "callg12" -> <<"isrc">>
     [] k = "callg13" -> <<"dsrc", "dsrc", "dsrc">>
     [] k = "callg14" -> <<"ireg", "isrc", "isrc", "isrc">>
@@ -363,6 +366,8 @@ Dom(h) ==
                      [insn |-> "addr8", ty |-> "u8"]}
     [] h = "dmem" -> {Mem("i32", 0, RTMP, 0, 1), Mem("i32", 4, RTMP, 0, 1), Mem("u32", 8, RTMP, 0, 1), Mem("i64", 12, RTMP, 0, 1),
                       Mem("u8", 1, RTMP, 0, 1), Mem("i16", 6, RTMP, 0, 1)}
+    [] h = "qmem" -> {Mem("i64", 0, RTMP, 0, 1), Mem("i64", 24, RTMP, 0, 1), Mem("u8", 24, RTMP, 0, 1), Mem("i32", 28, RTMP, 0, 1), Mem("u16", 2, RTMP, 0, 1)}
+    [] h = "qfmem" -> {Mem("ld", 8, RTMP, 0, 1)}
     [] h = "dsrc" -> {Reg(r) : r \in DRegs}
     [] h = "subld" -> {Mem("u8", 12, PA, 0, 1), Mem("u16", 14, PA, 0, 1), Mem("i32", 12, PA, 0, 1), Mem("u8", 9, PA, 0, 1), Mem("i16", 10, PA, 0, 1)}
 
@@ -499,6 +504,9 @@ Render(k, v) ==
                         InsIn("add", v[1], <<v[1], Mem("i32", 0, PA, 0, 1)>>)>>
     \* read-only data section of the module: a named data item continued by an anonymous one
     [] k = "dload" -> <<InsIn("mov", Reg(RTMP), <<DRef3>>), InsIn("mov", v[1], <<v[2]>>)>>
+    \* a section whose members all have sizes that are multiples of 8, one of them a long double at offset 8 (16-byte aligned in C, not here)
+    [] k = "qload" -> <<InsIn("mov", Reg(RTMP), <<DRef7>>), InsIn("mov", v[1], <<v[2]>>)>>
+    [] k = "qloadf" -> <<InsIn("mov", Reg(RTMP), <<DRef7>>), InsIn("ldmov", Reg(17), <<v[1]>>)>>
     [] k = "callg12" -> <<[op |-> "call", callee |-> [k |-> "func", f |-> 13], res |-> <<Reg(14)>>, args |-> <<v[1]>>]>>
     [] k = "callg13" -> <<[op |-> "call", callee |-> [k |-> "func", f |-> 14], res |-> <<Reg(12)>>,
                            args |-> <<v[1], v[2], v[3], v[1], v[2], v[3], v[1], v[2], v[3]>>]>>
@@ -603,9 +611,11 @@ InitMem(buf, lrs) ==
     [sz |-> 8 * Len(lrs), live |-> TRUE, cells |-> LrCellsOf(lrs)],
     [sz |-> 16, live |-> TRUE, cells |-> [j \in 1..16 |-> IF j <= 8 THEN [k |-> "p", i |-> j, b |-> 2, o |-> 8]
                                                             ELSE [k |-> "fnc", i |-> j - 8, f |-> 6]]],
-    [sz |-> 8, live |-> TRUE, cells |-> OpaqueCells]>>       \* block 6 (GlobBlk): the global variable tied to a hard register
+    [sz |-> 8, live |-> TRUE, cells |-> OpaqueCells],        \* block 6 (GlobBlk): the global variable tied to a hard register
+    [sz |-> 32, live |-> TRUE,                                \* block 7: section gq; the 6 bytes after the 10 of the long double are padding
+     cells |-> WordCells(FromNat(3)) \o [i \in 1..16 |-> IF i <= 10 THEN FpC("ld", i, Fin(0, 5, -1)) ELSE [k |-> "u"]] \o WordCells(FromNat(40))]>>
 InitFrames == <<[f |-> 1, id |-> 0, va |-> <<>>, pc |-> 1, regs |-> [r \in 1..Len(MainRegTy) |-> IF r = 1 THEN PtrV(1, 0) ELSE UndefV],
-                 base |-> 6, ovf |-> NoOvf]>>
+                 base |-> 7, ovf |-> NoOvf]>>
 MainFunc ==
   [name |-> "main", params |-> <<"p">>, res |-> <<"i64">>, regty |-> MainRegTy, lrefs |-> LrSeq, gvar |-> UseG,
    insns |-> Prologue \o [i \in 1..Len(body) |-> Resolve(body[i])] \o Epilogue]
